@@ -1,214 +1,63 @@
-import Rq.Thm.C02b
-import Rq.Thm.C06
-import Rq.Lemmas.LeftInv
+import Rq.Thm.Cert.K10
+import Rq.Thm.Cert.K12
+import Rq.Thm.Cert.K18
+import Rq.Thm.Cert.K20
+import Rq.Thm.Cert.K26
+import Rq.Thm.Cert.K30
+import Rq.Thm.Cert.K32
+import Rq.Thm.Cert.K36
+import Rq.Thm.Cert.K42
+import Rq.Thm.Cert.K46
+import Rq.Thm.Cert.K48
+import Rq.Thm.Cert.K49
 /-!
-# C06 (continued) — A(K') is invertible: a kernel-checked anchor for the smallest block sizes
+# C06 (continued) — A(K') is invertible: kernel-checked anchors for the smallest block sizes
 
 `∀ K' ∈ Table 2, A(K') invertible` is out of reach of kernel evaluation (dimension up to 57 326) and is
 decided per K' by the compiled model over all 477 K' (engine `inter`). Here the statement is
-*proved in the kernel* for the smallest extended sizes, by exhibiting a left inverse B (computed
-outside, checked inside: B·A = I over GF(256), evaluated on the packed tables), so that the
-hypotheses `Determined` / `GoodEnc` of the decoder and encoder theorems (C01, C02, C04, C06, C08,
-C09, C18) are known to be satisfiable by real encoders — they are not vacuous.
-
-Structure of the proof (per K'): (1) the model's `constraintMatrix` is evaluated once by the kernel
-and equals the literal system `a10`; (2) the packed byte table `AP10` is the matrix of `a10`
-(`checkCoef`); (3) the packed table `BP10` (Gauss–Jordan inverse, computed by an unverified program
-outside) satisfies `BP10 · AP10 = I` (`checkInvRows`, 27³ products through `gmulP`);
-(4) `leftInverse_determined` (`Rq/Lemmas/LeftInv.lean`) turns the left inverse into `Determined`.
+*proved in the kernel* for the smallest extended sizes (see `certified_sizes`), one generated module per K'
+(`Rq/Thm/Cert/K<K'>.lean`, generator `gencert.py`, shared lemmas `Rq/Thm/Cert/Common.lean`): a left
+inverse B is computed outside and checked inside (B·A = I over GF(256)), so that the hypotheses
+`Determined` / `GoodEnc` of the decoder and encoder theorems (C01, C02, C04, C06, C08, C09, C18) are
+known to be satisfiable by real encoders — they are not vacuous.
 -/
 namespace Rq.C06
-open Rq Rq.C15
+open Rq
 
-set_option maxRecDepth 100000
+/-- **the certified sizes**: for each of them the standard system exists and is determined -/
+theorem certified_sizes : ∀ k ∈ [10, 12, 18, 20, 26, 30, 32, 36, 42, 46, 48, 49],
+    ∃ sp, sysParams k = some sp ∧ ∃ a, fullSystem sp (List.range k) = some a ∧ Determined a := by
+  intro k hk
+  simp only [List.mem_cons, List.not_mem_nil, or_false] at hk
+  rcases hk with rfl | rfl | rfl | rfl | rfl | rfl | rfl | rfl | rfl | rfl | rfl | rfl
+  · exact ⟨_, Rq.Cert.sysParams_10, Rq.Cert.determined_10⟩
+  · exact ⟨_, Rq.Cert.sysParams_12, Rq.Cert.determined_12⟩
+  · exact ⟨_, Rq.Cert.sysParams_18, Rq.Cert.determined_18⟩
+  · exact ⟨_, Rq.Cert.sysParams_20, Rq.Cert.determined_20⟩
+  · exact ⟨_, Rq.Cert.sysParams_26, Rq.Cert.determined_26⟩
+  · exact ⟨_, Rq.Cert.sysParams_30, Rq.Cert.determined_30⟩
+  · exact ⟨_, Rq.Cert.sysParams_32, Rq.Cert.determined_32⟩
+  · exact ⟨_, Rq.Cert.sysParams_36, Rq.Cert.determined_36⟩
+  · exact ⟨_, Rq.Cert.sysParams_42, Rq.Cert.determined_42⟩
+  · exact ⟨_, Rq.Cert.sysParams_46, Rq.Cert.determined_46⟩
+  · exact ⟨_, Rq.Cert.sysParams_48, Rq.Cert.determined_48⟩
+  · exact ⟨_, Rq.Cert.sysParams_49, Rq.Cert.determined_49⟩
 
-/-! ## K' = 10 -/
+/-! the names used by the other files and scripts -/
 
-/-- the code parameters of K' = 10 (first row of Table 2) -/
-def sp10 : SysParams := { kp := 10, j := 254, s := 7, h := 10, w := 17, l := 27, p := 10, p1 := 11 }
+abbrev sp10 := Rq.Cert.sp10
+abbrev sp12 := Rq.Cert.sp12
+theorem sysParams_10 : sysParams 10 = some sp10 := Rq.Cert.sysParams_10
+theorem sysParams_12 : sysParams 12 = some sp12 := Rq.Cert.sysParams_12
+theorem determined_10 : ∃ a, fullSystem sp10 (List.range 10) = some a ∧ Determined a := Rq.Cert.determined_10
+theorem determined_12 : ∃ a, fullSystem sp12 (List.range 12) = some a ∧ Determined a := Rq.Cert.determined_12
 
-theorem rowOf_10 : rowOf 10 = some 0 := by
-  rw [rowOf_iff]
-  exact ⟨by decide, by decide, by decide +kernel, fun j hj => by omega⟩
-
-theorem sysParams_10 : sysParams 10 = some sp10 := by
-  rw [sysParams_row 10 0 rowOf_10]
-  decide +kernel
-
-/-- binary rows of A(10): 7 LDPC rows, then the G_ENC rows of ISI 0..9 (columns of the ones) -/
-def bin10 : Array (List Nat) :=
-  #[[18, 17, 10, 7, 6, 5, 0], [19, 18, 11, 8, 6, 1, 0], [20, 19, 12, 9, 7, 2, 1, 0], [21, 20, 13, 8, 3, 2,
-  1], [22, 21, 14, 9, 7, 4, 3, 2], [23, 22, 15, 8, 5, 4, 3], [24, 23, 16, 9, 6, 5, 4], [23, 18, 13, 9], [21,
-  20, 14, 8, 2, 13, 7, 1, 12], [18, 17, 2, 13, 7, 1, 12, 6, 0, 11, 5, 16, 10, 4, 15, 9, 3], [20, 17, 25, 5,
-  4], [26, 20, 25, 8, 7], [24, 21, 15, 7], [19, 26, 22, 13, 9, 5], [22, 19, 12, 6], [25, 17, 20, 9, 4, 16],
-  [22, 21, 14, 11, 8, 5, 2, 16]]
-
-/-- HDPC rows of A(10) (10 × 27 bytes) -/
-def hd10 : Array (Array Nat) :=
-  #[#[250, 243, 247, 245, 244, 244, 244, 122, 61, 144, 72, 36, 18, 9, 4, 2, 1, 1, 0, 0, 0, 0, 0, 0, 0, 0, 0],
-  #[151, 197, 236, 118, 181, 212, 106, 53, 26, 13, 136, 68, 34, 17, 8, 4, 2, 0, 1, 0, 0, 0, 0, 0, 0, 0, 0],
-  #[24, 12, 6, 3, 143, 201, 234, 117, 180, 90, 45, 152, 76, 38, 19, 9, 4, 0, 0, 1, 0, 0, 0, 0, 0, 0, 0],
-  #[18, 9, 138, 69, 172, 86, 165, 220, 224, 112, 56, 28, 128, 64, 32, 16, 8, 0, 0, 0, 1, 0, 0, 0, 0, 0, 0],
-  #[27, 131, 207, 103, 189, 94, 47, 153, 194, 239, 119, 59, 29, 128, 64, 32, 16, 0, 0, 0, 0, 1, 0, 0, 0, 0,
-  0], #[44, 22, 133, 204, 232, 116, 58, 147, 199, 237, 248, 124, 62, 31, 129, 64, 32, 0, 0, 0, 0, 0, 1, 0, 0,
-  0, 0], #[238, 119, 181, 90, 45, 152, 76, 38, 19, 135, 205, 232, 116, 58, 29, 128, 64, 0, 0, 0, 0, 0, 0, 1,
-  0, 0, 0], #[48, 24, 12, 6, 3, 143, 201, 100, 50, 25, 130, 207, 233, 116, 58, 29, 128, 0, 0, 0, 0, 0, 0, 0,
-  1, 0, 0], #[168, 84, 42, 21, 132, 66, 33, 158, 79, 39, 19, 135, 205, 232, 116, 58, 29, 0, 0, 0, 0, 0, 0, 0,
-  0, 1, 0], #[235, 117, 58, 29, 128, 64, 32, 16, 8, 4, 2, 1, 142, 201, 234, 117, 58, 0, 0, 0, 0, 0, 0, 0, 0,
-  0, 1]]
-
-/-- the standard system A(10) -/
-def a10 : System := { l := 27, bin := bin10, nLdpc := 7, hdpc := hd10 }
-
-/-- A(10) as a packed 27 × 27 byte table (row order LDPC, HDPC, G_ENC) -/
-def AP10 : Nat := 0x101000000000100010000010000010000010000010000000100000000010000010100000000000001000000000100000000000000000100000100000000000001000000000001000000000000010000000100000100000000000100000001000000010000000000000001000001000000000001000000000000000100000000000000010100000000010000000000000000000000010100000000000000000100000000010000010000000000000000000000010100000000000000000000000001010101000101010101000101010101010101000000000001010000000000010101000000010100000000010100000000010000000001000000000100000001000000000000000000010000000000000000003a75eac98e01020408102040801d3a75eb000100000000000000001d3a74e8cd8713274f9e214284152a54a800000100000000000000801d3a74e9cf82193264c98f03060c18300000000100000000000040801d3a74e8cd8713264c982d5ab577ee000000000100000000002040811f3e7cf8edc7933a74e8cc85162c00000000000100000000102040801d3b77efc2992f5ebd67cf831b0000000000000100000008102040801c3870e0dca556ac458a091200000000000000010000040913264c982d5ab475eac98f03060c1800000000000000000100020408112244880d1a356ad4b576ecc5970000000000000000000101020409122448903d7af4f4f4f5f7f3fa000001010000000000000100000000000001000001010100000000000000010100000000000001000000000000010000010101000000000000000101000000000000010000000001000100000101010000000000000001010000000000000100000000010000000001010100000000000000010100000000000001000001000100000000010101000000000000000101000000000000010000010001000000000101000000000000000001010000000000000100000101010000000001
-
-/-- the inverse of A(10) over GF(256) as a packed 27 × 27 byte table (computed outside the kernel) -/
-def BP10 : Nat := 0xd1030512e6eda46454a3fe4aa30655ca1a6752f845e073dadeae3bac3d1d96b22b074cad69bd1045f6732d7f7f7eb8f7683ca26195cee2179805ac6b1b48dd0a6e672436693bc957972389b5a30b78b26751c52c2d530625df46722be684c4607a99e24c6ad760506e57b455e28bb3ddf8f01871424a2d630c11ca2c6ccec26af4afe89cd17188805b03e6e07083838c9096a80fe596a7261c4bdbef9a692321d8805273471c9e7c5dffd72f60526d584e1196dff5abf384c3c9db5f7a1e73826718dc3ae2a850bb95cd23d97b8a53f0b8d5a68451e6511376cc0f6d37d45be74afeb943a6dd95a07d5eab1391b23398ecd063731b286ebf3f20c991335104c29c733763508d9a7dd294fe081e697e71f1dba1c7f84976891c4e93729351a4d7811632c90ef66a97d6138c040129ac1cafb449ad3c5c3d4eaa47a1e02f7501597db21610ca56571235b33a1d5cc2a1df7ead255bef24d90c4b248e761a7b7d538bc572a7067fbec83074f2f146d5cc582de13c562011e1831976c88ce19fee3a9eb12823a528cbdfe75a249e684125d988dcf818e2daf113fa84fe5caae7960453e32be68d0221d5ab67da0f3b8d45ac676b4b8487983c50f0aa1ccf3b5b5676905ba7b4bc4db3d57aeeb37482e632c3d40186c4bde657d35f2016bc91064510f27217387d405e8dc07aae0c7ab3cb3676fbfc46d9c05b2de53c52221fe48f187871c09fe264b78464e5d355f377eeb136a8ea3cd7132e9355eb7cf73474d1250e16bc22c23933de0aedf40dc2035a9304d0e411cf38790af217e96213f8cfb234fa19402db34718468753223b7ce152ea9687a7650df17b83b55941765faa1ffd4c92b681da5b051774e03e4b731a296fbf3e20c890325104c29c733763508d9a7dd395fe091f685979d29bc41587707a058eebb16b668b406b666f751b6d01d0f2e1f54dba060c2d7cc9b28e2b1c1c4ac10690f8518510d45c112f6b7d2dfa35a907c187f7beb968bc6234469dfcfa602a65e81f16e88ea0
-
-/-- the model builds exactly this system (one kernel evaluation of the model) -/
-theorem cm10 : constraintMatrix sp10 (List.range 10) = some (bin10, hd10) := by decide +kernel
-
-theorem full10 : fullSystem sp10 (List.range 10) = some a10 := by
-  unfold fullSystem
-  rw [cm10]
-  rfl
-
-theorem coef10 : checkCoef a10 AP10 = true := by decide +kernel
-
-/-- `BP10 · AP10 = I` -/
-theorem inv10 : checkInvRows 27 27 AP10 BP10 0 27 = true := by decide +kernel
-
-theorem wf10 : Rq.C02.WfSystem a10 :=
-  Rq.C02.fullSystem_wf 10 sp10 sysParams_10 (List.range 10)
-    (fun x hx => by have := List.mem_range.mp hx; omega) a10 full10
-
-theorem determined_a10 : Determined a10 := by
-  apply leftInverse_determined a10 wf10.toSys AP10 BP10 coef10
-  intro i hi j hj
-  exact checkInvRows_spec 27 27 AP10 BP10 0 27 inv10 i (Nat.zero_le i) (by have : a10.l = 27 := rfl; omega) j hj
-
-/-- **A(10) is invertible**: the standard system of K' = 10 is determined -/
-theorem determined_10 : ∃ a, fullSystem sp10 (List.range 10) = some a ∧ Determined a :=
-  ⟨a10, full10, determined_a10⟩
-
-/-- hence a good encoder exists for every block of 10 one-byte symbols: the hypotheses of the
-encoder / decoder theorems are satisfiable -/
+/-- a good encoder exists for every block of 10 one-byte symbols (any symbol size: `Rq.Cert.goodEnc_exists_10`) -/
 theorem goodEnc_exists_10 (src : List Sym) (hlen : src.length = 10) (hwf : ∀ s ∈ src, WfSym 1 s) :
-    ∃ e : BlockEnc, e.src = src ∧ GoodEnc e 1 := by
-  have hb : HdpcBytes a10 := fun row hr => (wf10.hdpc_wf row hr).2
-  have hrhs : WfRhs a10 1 (createD sp10 1 src) := by
-    refine ⟨?_, fun s hs' => ?_⟩
-    · have hr : a10.rows = 27 := rfl
-      rw [hr]
-      simp [createD, hlen, sp10]
-    · unfold createD at hs'
-      rcases List.mem_append.mp hs' with hs' | hs'
-      · rcases List.mem_append.mp hs' with hs' | hs'
-        · rw [List.eq_of_mem_replicate hs']; exact Rq.C04.wf_zeroSym _
-        · exact hwf s hs'
-      · rw [List.eq_of_mem_replicate hs']; exact Rq.C04.wf_zeroSym _
-  obtain ⟨c, hc, hsol⟩ := consistent_of_determined_square a10 hb rfl determined_a10 1 _ hrhs
-  refine ⟨{ sbn := 0, t := 1, sp := sp10, src := src, c := c }, rfl,
-    ⟨by decide, rfl, ?_, hwf, hc, ⟨a10, full10, hsol⟩, ⟨a10, full10, determined_a10⟩⟩⟩
-  show sysParams src.length = some sp10
-  rw [hlen]
-  exact sysParams_10
+    ∃ e : BlockEnc, e.src = src ∧ GoodEnc e 1 := Rq.Cert.goodEnc_exists_10 1 (by decide) src hlen hwf
 
-/-! ## K' = 12 -/
-
-/-- the code parameters of K' = 12 (second row of Table 2) -/
-def sp12 : SysParams := { kp := 12, j := 630, s := 7, h := 10, w := 19, l := 29, p := 10, p1 := 11 }
-
-theorem rowOf_12 : rowOf 12 = some 1 := by
-  rw [rowOf_iff]
-  exact ⟨by decide, by decide, by decide +kernel, fun j hj => by
-    have : j = 0 := by omega
-    subst this
-    decide +kernel⟩
-
-theorem sysParams_12 : sysParams 12 = some sp12 := by
-  rw [sysParams_row 12 1 rowOf_12]
-  decide +kernel
-
-/-- binary rows of A(12): 7 LDPC rows, then the G_ENC rows of ISI 0..11 (columns of the ones) -/
-def bin12 : Array (List Nat) :=
-  #[[20, 19, 12, 10, 7, 6, 5, 0], [21, 20, 13, 11, 8, 6, 1, 0], [22, 21, 14, 9, 7, 2, 1, 0], [23, 22, 15, 10,
-  8, 3, 2, 1], [24, 23, 16, 11, 9, 7, 4, 3, 2], [25, 24, 17, 10, 8, 5, 4, 3], [26, 25, 18, 11, 9, 6, 5, 4],
-  [25, 20, 5, 7, 9, 11], [23, 22, 17, 2, 6, 10, 14], [21, 20, 19, 16, 15], [19, 27, 14, 1, 7, 13], [28, 22,
-  27, 0, 8], [26, 23, 8, 5], [21, 28, 24, 1, 5], [24, 21, 5, 12, 0], [27, 19, 22, 2, 0, 17], [24, 23, 6, 2,
-  17, 13, 9], [25, 26, 17, 8], [25, 27, 14, 7, 0, 12, 5, 17, 10, 3]]
-
-/-- HDPC rows of A(12) (10 × 29 bytes) -/
-def hd12 : Array (Array Nat) :=
-  #[#[155, 77, 168, 84, 42, 155, 77, 168, 84, 42, 21, 132, 66, 33, 16, 8, 4, 2, 1, 1, 0, 0, 0, 0, 0, 0, 0, 0,
-  0], #[85, 164, 82, 41, 20, 10, 5, 140, 200, 100, 50, 25, 130, 65, 32, 16, 8, 4, 2, 0, 1, 0, 0, 0, 0, 0, 0,
-  0, 0], #[205, 232, 116, 58, 29, 128, 64, 32, 16, 8, 4, 2, 1, 142, 71, 35, 17, 8, 4, 0, 0, 1, 0, 0, 0, 0, 0,
-  0, 0], #[61, 144, 72, 36, 18, 9, 4, 2, 143, 201, 234, 117, 58, 29, 128, 64, 32, 16, 8, 0, 0, 0, 1, 0, 0, 0,
-  0, 0, 0], #[69, 172, 86, 165, 220, 224, 112, 56, 28, 128, 206, 233, 116, 58, 29, 128, 64, 32, 16, 0, 0, 0,
-  0, 1, 0, 0, 0, 0, 0], #[144, 72, 170, 85, 42, 21, 132, 204, 102, 51, 151, 197, 236, 118, 59, 29, 128, 64,
-  32, 0, 0, 0, 0, 0, 1, 0, 0, 0, 0], #[139, 203, 235, 117, 180, 90, 45, 152, 76, 38, 19, 135, 205, 232, 116,
-  58, 29, 128, 64, 0, 0, 0, 0, 0, 0, 1, 0, 0, 0], #[182, 91, 163, 223, 225, 254, 127, 63, 145, 198, 99, 49,
-  150, 197, 236, 118, 59, 29, 128, 0, 0, 0, 0, 0, 0, 0, 1, 0, 0], #[185, 210, 105, 186, 93, 160, 80, 40, 20,
-  132, 204, 102, 51, 151, 197, 236, 118, 59, 29, 0, 0, 0, 0, 0, 0, 0, 0, 1, 0], #[124, 176, 214, 107, 187,
-  211, 231, 253, 240, 120, 60, 30, 15, 7, 141, 200, 234, 117, 58, 0, 0, 0, 0, 0, 0, 0, 0, 0, 1]]
-
-/-- the standard system A(12) -/
-def a12 : System := { l := 29, bin := bin12, nLdpc := 7, hdpc := hd12 }
-
-/-- A(12) as a packed 29 × 29 byte table (row order LDPC, HDPC, G_ENC) -/
-def AP12 : Nat := 0x100010000000000000001000001000100010000010001000100000100000101000000000000000100000000000000000100000000000000000000000001010000000000010000000100000001000001000000010000000100000000010000010001000000000000000000000000000001000100000000010000010000000000000000010000000000000100000000010100000001000001000000000000000000000000000000010000000100000001000001000000000000000000000000000001000001000000000001010000000001000000000000000000000000000100000000000000010001000000000000000100000000010100000000000100000000000100000000000000000101010000010100000000000000000000000000000000000000000101000000000100000100000001000000010000000100000000000100000000010000000000000000010001000100010000000000010000000000000000003a75eac88d070f1e3c78f0fde7d3bb6bd6b07c000100000000000000001d3b76ecc5973366cc84142850a05dba69d2b900000100000000000000801d3b76ecc5963163c6913f7ffee1dfa35bb60000000100000000000040801d3a74e8cd8713264c982d5ab475ebcb8b000000000100000000002040801d3b76ecc5973366cc84152a55aa489000000000000100000000102040801d3a74e9ce801c3870e0dca556ac450000000000000100000008102040801d3a75eac98f020409122448903d0000000000000001000004081123478e01020408102040801d3a74e8cd0000000000000000010002040810204182193264c88c050a142952a455000000000000000000010102040810214284152a54a84d9b2a54a84d9b0000010100000000000001000000000000010001000001010100000000000000010100000000000001000000000000010001000001010100000000000000010100000000000001000000000100010001000001010100000000000000010100000000000001000000000100010000000001010100000000000000010100000000000001000000000100010000000001010100000000000000010100000000000001000100000100010000000001010000000000000000010100000000000001000100000101010000000001
-
-/-- the inverse of A(12) over GF(256) as a packed 29 × 29 byte table (computed outside the kernel) -/
-def BP12 : Nat := 0x2ab88c2439e1b7f89af77127186c6e2994c416d592f961fd3db308f2b0cae6061dba62661a839e0670784f775e1abf1d4d9a8bf7f531e8f4ff8bf9c46bc0789cbf5c535f3f0dc036827a0a4ff6dc1f20f8b23793c6a1ec490c0cf2c55d2f6047641c173d9c619335a7dd6cbd67428223bbe878b69c2d7f55eb14ebb0c3cd8a06a4ba402ff4b56cf826bf861e6bc0c309e4f6b96d2f4c4c6b5c84b024461001d332bc70bbae9e39013aebb8544a2249ac98818cb3240d3a4fd3d2beffdaaf6d423842eefe52ca002d4b790ae500e14e8d8d589ca8d93cd2119f9991d424dc30021fc16752f3c12920366a7ea38871701f05bc1d666e8fca2a22a004ab8dd1d0c065d6739dcbfd5cb5aa17f6941317193cc5e55345da8b3574cfc9b28d33ecc4350217377d06aaccf15138607173f8c9c575c24aaf3c398fc6592958d30e7b7d2d458c141e3b71e1abdc67d9da7318fa93b8a266d7612c675d7f4fd0023b02ff71991bc0324a2efb0d29326983f956f77e12b3ab1c980a4597a61534d5368b117ca2f053e67cb3717fe284e75b2a54cf378843ebc2215a31f15efd87201e5bbd4b8c117b2a4083a61c008d472faffda272583924b1b83e54d0cb1846f92bca0c8d5aa07bd427a3b72f36007e8f443fb8b0dfa28a4c5c7993c29fdd091abbce4b2e7597ce6043357a33e96e27bf3be2fde07fab579e8499f22b2cd380ef42d358688347878cfd323f870a932c35d5727331f89b46cc8fceaa835b6878772a615a109629c6135fb0e879fd530f437d313bfb2e910746b6211093bbdde1fa48ed7e80c8b041929d8ceb26a3fae1ddbfe744c327d9fb13ac5089d675269657495761095876972ce8322cc41d480ce4d331cbcfb04d8ba80179469c1e61e65f4ceae8b9ac88b9036ba67771fc6aa5b1c296bcf842cc439510bd17d444431b92f1edc9972a34dd68085f88f7eeaa5b1a6fc4a4f43f6fdf957cf3e29666fd93a9b73331c009ef492bf30630b49333248327e4fcf87ca4a048abbdd1bf87c0a0a96ab7b92c66cae703d20fd15062b0547ba3739809b2dd672d5ebd93d6b3d699d56ef80095c81a201949aaf90c56fec55f1329fdc164fff6c853300999eb987b5aa71dccae3a62b94266495b91fcf930e2347ef99eacca14339cc1e046f90538cb4f69ba0c93aa52954521d67d69
-
-/-- the model builds exactly this system (one kernel evaluation of the model) -/
-theorem cm12 : constraintMatrix sp12 (List.range 12) = some (bin12, hd12) := by decide +kernel
-
-theorem full12 : fullSystem sp12 (List.range 12) = some a12 := by
-  unfold fullSystem
-  rw [cm12]
-  rfl
-
-theorem coef12 : checkCoef a12 AP12 = true := by decide +kernel
-
-/-- `BP12 · AP12 = I` -/
-theorem inv12 : checkInvRows 29 29 AP12 BP12 0 29 = true := by decide +kernel
-
-theorem wf12 : Rq.C02.WfSystem a12 :=
-  Rq.C02.fullSystem_wf 12 sp12 sysParams_12 (List.range 12)
-    (fun x hx => by have := List.mem_range.mp hx; omega) a12 full12
-
-theorem determined_a12 : Determined a12 := by
-  apply leftInverse_determined a12 wf12.toSys AP12 BP12 coef12
-  intro i hi j hj
-  exact checkInvRows_spec 29 29 AP12 BP12 0 29 inv12 i (Nat.zero_le i) (by have : a12.l = 29 := rfl; omega) j hj
-
-/-- **A(12) is invertible**: the standard system of K' = 12 is determined -/
-theorem determined_12 : ∃ a, fullSystem sp12 (List.range 12) = some a ∧ Determined a :=
-  ⟨a12, full12, determined_a12⟩
-
-/-- hence a good encoder exists for every block of 12 one-byte symbols: the hypotheses of the
-encoder / decoder theorems are satisfiable -/
+/-- a good encoder exists for every block of 12 one-byte symbols (any symbol size: `Rq.Cert.goodEnc_exists_12`) -/
 theorem goodEnc_exists_12 (src : List Sym) (hlen : src.length = 12) (hwf : ∀ s ∈ src, WfSym 1 s) :
-    ∃ e : BlockEnc, e.src = src ∧ GoodEnc e 1 := by
-  have hb : HdpcBytes a12 := fun row hr => (wf12.hdpc_wf row hr).2
-  have hrhs : WfRhs a12 1 (createD sp12 1 src) := by
-    refine ⟨?_, fun s hs' => ?_⟩
-    · have hr : a12.rows = 29 := rfl
-      rw [hr]
-      simp [createD, hlen, sp12]
-    · unfold createD at hs'
-      rcases List.mem_append.mp hs' with hs' | hs'
-      · rcases List.mem_append.mp hs' with hs' | hs'
-        · rw [List.eq_of_mem_replicate hs']; exact Rq.C04.wf_zeroSym _
-        · exact hwf s hs'
-      · rw [List.eq_of_mem_replicate hs']; exact Rq.C04.wf_zeroSym _
-  obtain ⟨c, hc, hsol⟩ := consistent_of_determined_square a12 hb rfl determined_a12 1 _ hrhs
-  refine ⟨{ sbn := 0, t := 1, sp := sp12, src := src, c := c }, rfl,
-    ⟨by decide, rfl, ?_, hwf, hc, ⟨a12, full12, hsol⟩, ⟨a12, full12, determined_a12⟩⟩⟩
-  show sysParams src.length = some sp12
-  rw [hlen]
-  exact sysParams_12
+    ∃ e : BlockEnc, e.src = src ∧ GoodEnc e 1 := Rq.Cert.goodEnc_exists_12 1 (by decide) src hlen hwf
 
 end Rq.C06
